@@ -160,12 +160,17 @@ class CachedTimeline(Timeline[IvlOut]):
             self._expiry_heap, (cover.created + self.ttl, self._expiry_seq, cover)
         )
 
-        # Stitch at boundaries
-        self._stitch_at(gap_start)
-        self._stitch_at(gap_end)
+        # Stitch at boundaries; the fragment inside the gap was fetched just now,
+        # so it supplies the fields of the merged interval
+        self._stitch_at(gap_start, fresh_side="right")
+        self._stitch_at(gap_end, fresh_side="left")
 
-    def _stitch_at(self, point: int) -> None:
-        """Stitch intervals at a boundary point."""
+    def _stitch_at(self, point: int, fresh_side: str = "left") -> None:
+        """Stitch intervals at a boundary point.
+
+        The merged interval takes its non-time fields from the fragment on
+        ``fresh_side`` (the one fetched most recently).
+        """
         if self._key_fields is None:
             # Mask timeline - no stitching needed
             return
@@ -187,7 +192,8 @@ class CachedTimeline(Timeline[IvlOut]):
             if key is None:
                 continue
             l_ivl, r_ivl = left_by_key[key], right_by_key[key]
-            merged = replace(l_ivl, end=r_ivl.end)
+            fresh = l_ivl if fresh_side == "left" else r_ivl
+            merged = replace(fresh, start=l_ivl.start, end=r_ivl.end)
             self._sink.remove(l_ivl)
             self._sink.remove(r_ivl)
             self._sink.add(merged)
